@@ -45,6 +45,7 @@ type GhostFunc struct {
 	Name   string
 	Params []string // sort names
 	Result string
+	State  bool // ghost state: a mutable map from references to values
 }
 
 type Macro struct {
@@ -585,13 +586,19 @@ func ParseSpecFile(path string, pkg string, requirePrefix bool) (*SpecFile, erro
 			sf.Types = append(sf.Types, curType)
 		case "ghost":
 			// ghost func name(sort, sort) sort
-			rest := strings.TrimSpace(strings.TrimPrefix(strings.TrimSpace(l.text[5:]), "func"))
+			rest := strings.TrimSpace(l.text[5:])
+			isState := false
+			if strings.HasPrefix(rest, "state") {
+				isState = true
+				rest = strings.TrimSpace(rest[5:])
+			}
+			rest = strings.TrimSpace(strings.TrimPrefix(rest, "func"))
 			i := strings.Index(rest, "(")
 			j := strings.LastIndex(rest, ")")
 			if i < 0 || j < i {
 				return nil, fail(l.no, "bad ghost declaration")
 			}
-			g := &GhostFunc{Name: strings.TrimSpace(rest[:i]), Result: strings.TrimSpace(rest[j+1:])}
+			g := &GhostFunc{Name: strings.TrimSpace(rest[:i]), Result: strings.TrimSpace(rest[j+1:]), State: isState}
 			for _, p := range splitTopLevel(rest[i+1:j], ',') {
 				if p != "" {
 					g.Params = append(g.Params, p)
